@@ -32,6 +32,8 @@ def t_select(chk, ix):
     rules_parser.check_tags_consumed(chk, ix, "G8")
     from .. import rules_outline, rules_tags
     rules_outline.check_row_tags_concrete(chk, ix, "B9")
+    # the rows that were selected / skipped are the rows that are reported: build_scenarios builds them once (shared with C06)
+    rules_outline.check_build_order(chk, ix)
     # the expression itself means what it says (shared with C07 / C08)
     rules_tags.check_v1_end_to_end(chk, ix)
     rules_tags.check_v2_renderings(chk, ix, chk.tier)
